@@ -1700,7 +1700,27 @@ SyntaxVisitor::Action TypeChecker::visitBinaryExpression_Logical(
         const Type* leftTy,
         const Type* rightTy)
 {
-    return Action::Skip;
+    // Each operand shall have scalar type, and the result has type int
+    // (6.5.13 and 6.5.14); an array or function operand is converted to a
+    // pointer.
+    auto isScalarOrConvertsToOne = [] (const Type* ty) {
+        return isScalarType(ty)
+                || ty->kind() == TypeKind::Array
+                || ty->kind() == TypeKind::Function
+                || (ty->kind() == TypeKind::Tag
+                        && ty->asTagType()->kind() == TagTypeKind::Enum);
+    };
+    if (!isScalarOrConvertsToOne(leftTy)) {
+        diagReporter_.ExpectedExpressionOfScalarType(node->left()->lastToken());
+        return typeCheckError(node);
+    }
+    if (!isScalarOrConvertsToOne(rightTy)) {
+        diagReporter_.ExpectedExpressionOfScalarType(node->right()->lastToken());
+        return typeCheckError(node);
+    }
+    return typeChecked(
+                node,
+                semaModel_->compilation()->canonicalBasicType(BasicTypeKind::Int_S));
 }
 
 SyntaxVisitor::Action TypeChecker::visitConditionalExpression(const ConditionalExpressionSyntax* node)
